@@ -1,0 +1,33 @@
+//go:build verif
+
+package union
+
+// Contracts for the union plugin, read by /verif's gvc (comment-only file).
+
+//@ func (g *gen) Add(name string, typs []types.Type) (r string, err error)
+//@ param typs: len=0,1,2,3
+//@ param name: classes=Ident
+
+//@ func (g *gen) Generate(typs []types.Type) (err error)
+//@ param typs: len=1
+
+//@ func (g *gen) genMap(typ *types.Map) (err error)
+//@ emits: decls
+//@ serves: union len=1 kind=Map typ=typs[0]
+//@ o-sig: (union, that map[$key(typ)]struct{}) (r map[$key(typ)]struct{})
+//@ o-requires: union != nil
+//@ o-ensures: [union] forall k val :: (k in r) <==> (k in union || k in that)
+//@ o-loop: 1: invariant union != nil && forall k val :: (k in union) <==> (k in old(union) || visited(k))
+
+//@ func (g *gen) genSlice(typ *types.Slice) (err error)
+//@ emits: decls
+//@ serves: union len=1 kind=Slice typ=typs[0]
+//@ o-sig: (this, that []$elem(typ)) (r []$elem(typ))
+//@ o-ensures: [first-list-then-new-items] len(r) >= len(this) && forall j int :: 0 <= j && j < len(this) ==> r[j] == this[j]
+//@ o-ensures: [covers-that] forall j int :: 0 <= j && j < len(that) ==> exists k int :: 0 <= k && k < len(r) && EqC(elem(typ), r[k], that[j])
+//@ o-ensures: [only-from-inputs] forall k int :: len(this) <= k && k < len(r) ==> exists j int :: 0 <= j && j < len(that) && r[k] == that[j]
+//@ o-ensures: [no-duplicate-of-new-items] forall k int :: len(this) <= k && k < len(r) ==> forall l int :: 0 <= l && l < k ==> !EqC(elem(typ), r[l], r[k])
+//@ o-loop: 1: invariant len(this) >= len(old(this)) && forall j int :: 0 <= j && j < len(old(this)) ==> this[j] == old(this)[j]
+//@ o-loop: 1: invariant forall j int :: 0 <= j && j < $i ==> exists k int :: 0 <= k && k < len(this) && EqC(elem(typ), this[k], that[j])
+//@ o-loop: 1: invariant forall k int :: len(old(this)) <= k && k < len(this) ==> exists j int :: 0 <= j && j < $i && this[k] == that[j]
+//@ o-loop: 1: invariant forall k int :: len(old(this)) <= k && k < len(this) ==> forall l int :: 0 <= l && l < k ==> !EqC(elem(typ), this[l], this[k])
